@@ -8,8 +8,9 @@ Scenario lines (in addition to every line of the `tree` model, see harness/model
         spellings of the one temporary root T: abs (T), abs_s (T/), abs_dot (T/.), rel (basename, cwd = parent),
         rel_s (basename/), dot_rel (./basename), rel_dot (basename/.), empty ('' with cwd = T), dot ('.'),
         dot_s ('./'); the Lean model works on the listing, so the spelling is normalised away there
-    rule p<k> :<dir as written> fac=<n> exts=<.a,.b|-> args=<tok>     p<k>.add_rule(dir, F<n>, *args,
-                                                                       file_exts=..., **kwargs)
+    rule p<k> :<dir as written> fac=<n> exts=<.a,.b|-> args=<tok> [cont=<type>]   p<k>.add_rule(dir, F<n>, *args,
+                  file_exts=<container>(...), **kwargs); container types: list tuple set frozenset dictkeys dict
+                  gen (generator) iter (iterator) map (map object) reversed
     op populate p<k> m<j> nest=<0|1|N> trim=<0|1|N> root=<0|1|spelling>   p<k>(m<j>, [root,] nest_on_conflict=..,
                                               trim_extensions=..)   N: not given (falls back)
     op splitext :<name>                       os.path.splitext(name)
@@ -53,6 +54,19 @@ def enc_args(args, kwargs):
     if kwargs:
         return pos + '|' + '.'.join(f'{k}={v}' for k, v in kwargs.items())
     return pos or '-'
+
+
+CONTAINERS = {
+    'list': list, 'tuple': tuple, 'set': set, 'frozenset': frozenset,
+    'dictkeys': lambda x: dict.fromkeys(x).keys(), 'dict': lambda x: dict.fromkeys(x, 1),
+    'gen': lambda x: (e for e in x), 'iter': lambda x: iter(list(x)), 'map': lambda x: map(str, x),
+    'reversed': lambda x: reversed(list(reversed(x))),
+}
+
+
+def container(kind, items):
+    """the documented type of file_exts is Iterable[str]: any of these is a legitimate argument"""
+    return CONTAINERS[kind](list(items))
 
 
 def norm(path):
@@ -210,18 +224,19 @@ class Run(tree_model.Run):
                     args, kwargs = dec_args(d['args'])
                     exts = [] if d['exts'] == '-' else d['exts'].split(',')
                     p = self.pops[t[1]]
-                    p['obj'].add_rule(t[2][1:], self.factory(int(d['fac'])), *args, file_exts=exts, **kwargs)
+                    p['obj'].add_rule(t[2][1:], self.factory(int(d['fac'])), *args,
+                                      file_exts=container(d.get('cont', 'list'), exts), **kwargs)
                     p['rules'].append((t[2][1:], exts))
                 elif t[0] == 'newmap':
                     k = int(t[1][1:])
-                    m = tree_model.ResourceMap()
+                    m = tree_model.make_map(tree_model.parse_opts(t[2:]))
                     self.menv[t[1]] = m
                     self.mdecl.append(k)
                     self.names[id(m)] = t[1]
                     self.keep.append(m)
                 elif t[0] == 'newhandle':
                     self.hs[int(t[1][1:])] = tree_model.make_handle(t[2], tree_model.parse_fails(t[3:]),
-                                                                     self.loader_excs)
+                                                                     self.loader_excs, tree_model.parse_opts(t[3:]))
                 elif t[0] == 'op':
                     self.safe_op(t[1:])
                 else:
